@@ -58,6 +58,8 @@ npy_intp fix_offset(const ExtendMode mode, npy_intp cc, const npy_intp len) {
                 int sz2 = 2 * len;
                 if (cc < -sz2)
                     cc = sz2 * (int)(-cc / sz2) + cc;
+                if (cc == 0)
+                    return 0; /* an exact multiple of the period */
                 cc = cc < -len ? cc + sz2 : -cc - 1;
             }
         } else if (cc >= len) {
